@@ -1,4 +1,4 @@
-import Hls.Muxer.TimeReach
+import Hls.Muxer.TimeFirstRun
 /-!
 # C03 — Playlist durations, target durations and date-times match the media
 
@@ -200,5 +200,66 @@ theorem c03_streams_same_targets {cfg : Cfg} {st0 : State} (h0 : start cfg = .ok
   have h1 := hg.same si (by rw [run_len h0]; exact hsi)
   have h2 := hg.same sj (by rw [run_len h0]; exact hsj)
   exact ⟨h1.1.trans h2.1.symm, h1.2.trans h2.2.symm⟩
+
+/-- **First unit of every segment, fMP4 variants** (the hypothesis is the property's well-formedness, restricted to
+the leading track: every write to it succeeds and none of its units lies before −10 s, `WFRun`; writes to the other
+tracks are arbitrary).  In the leading stream, every listed segment's first stored sample `x` (first sample of the
+first part-track of its first stored part, `segFirst`) is a sync sample, `toDur x.dts = startDTS` (the stored DTS
+carries the constant +10 s offset) and `x.ntp = startNTP`: EXTINF spans start at the media time of the segment's first
+unit and EXT-X-PROGRAM-DATE-TIME is the wall-clock time passed with that unit.  The open segment's first unit (stored,
+pending in the open part, or still in the look-ahead) satisfies the same (`OpenOK`). -/
+theorem c03_first_unit {cfg : Cfg} {st0 : State} (h0 : start cfg = .ok st0) (hv : cfg.variant ≠ .mpegts)
+    (ops : List WriteOp) (hwf : WFRun (leadStream st0) st0 ops) :
+    (∀ g ∈ listed (run st0 ops) (leadStream st0), ∃ x, segFirst g = some x ∧ x.sync = true ∧
+      toDur x.dts (st0.tcfg (leadStream st0)).clockRate = g.startDTS ∧ x.ntp = g.startNTP) ∧
+    (∀ o, ((run st0 ops).stream (leadStream st0)).nextSegment = some o →
+      OpenOK (st0.tcfg (leadStream st0)).clockRate o ((run st0 ops).track (leadStream st0)).samples
+        ((run st0 ops).track (leadStream st0)).next) := by
+  have hf := (reach_FSR h0 hv ops hwf).1
+  have hr : (run st0 ops).tcfg (leadStream st0) = st0.tcfg (leadStream st0) := tcfg_congr (run_cfg h0 ops) _
+  rw [← hr]
+  exact ⟨hf.listed, hf.opn⟩
+
+/-- **EXT-X-PROGRAM-DATE-TIME, fMP4 variants, every stream**: the `k`-th listed segment of any stream carries the
+`startDTS` / `startNTP` of the leading stream's `k`-th listed segment, i.e. `toDur` of the DTS and the NTP of that
+segment's first unit. -/
+theorem c03_pdt {cfg : Cfg} {st0 : State} (h0 : start cfg = .ok st0) (hv : cfg.variant ≠ .mpegts)
+    (ops : List WriteOp) (hwf : WFRun (leadStream st0) st0 ops) (si : Nat) (hsi : si < st0.streams.length)
+    (k : Nat) (g : Seg) (hg : (listed (run st0 ops) si)[k]? = some g) :
+    ∃ g' x, (listed (run st0 ops) (leadStream st0))[k]? = some g' ∧ segFirst g' = some x ∧
+      x.ntp = g.startNTP ∧ toDur x.dts (st0.tcfg (leadStream st0)).clockRate = g.startDTS ∧ x.sync = true := by
+  have hgi := reach_GI h0 ops
+  have hk := hgi.key si (by rw [run_len h0]; exact hsi)
+  obtain ⟨g', hg', hkk⟩ := reals_key_index hk.segs k g hg
+  obtain ⟨x, hx, h1, h2, h3⟩ := (c03_first_unit h0 hv ops hwf).1 g' (List.mem_of_getElem? hg')
+  simp only [Seg.key, Prod.mk.injEq] at hkk
+  exact ⟨g', x, hg', hx, by rw [h3, hkk.2.2.1], by rw [h2, hkk.1], h1⟩
+
+/-! ## Non-vacuity: a concrete Low-Latency muxer (H264 + AAC), rotations, a parameter change -/
+
+def exCfg : Cfg :=
+  { variant := .ll, segmentCount := 7, segmentMinDur := 1000000000, partMinDur := 200000000, segmentMaxSize := 1000000,
+    tracks := [{ codec := .h264, clockRate := 90000 }, { codec := .aac, clockRate := 48000, sampleRate := 48000 }] }
+def vop (i : Nat) (ra : Bool) (par : Nat) : WriteOp :=
+  { track := 0, pts := 45000 * i, dts := 45000 * i, ntp := 1600000000000000000 + 500000000 * i, ra := ra, par := par,
+    pays := [i], sizes := [100] }
+def aop (i : Nat) : WriteOp :=
+  { track := 1, pts := 24000 * i, dts := 24000 * i, ntp := 1600000000000000000 + 500000000 * i, ra := true,
+    pays := [1000 + i], sizes := [10] }
+/-- two-second GOPs … then a parameter change on the IDR at 2 s (forced cut), three more segments -/
+def exOps : List WriteOp :=
+  [vop 0 true 1, aop 0, vop 1 false 0, aop 1, vop 2 true 0, aop 2, vop 3 false 0, aop 3, vop 4 true 2, aop 4,
+   vop 5 false 0, vop 6 true 0, vop 7 true 0, vop 8 false 0]
+def exSt0 : State := (startState exCfg.withDefaults)
+
+theorem exStart : start exCfg = .ok exSt0 := rfl
+set_option maxRecDepth 100000 in
+/-- three real segments listed after the run (one of them opened by the forced rotation), parts advertised,
+the well-formedness hypothesis of `c03_first_unit` holds, the targets are 1 s / 500 ms -/
+example : (listed (run exSt0 exOps) 0).map (fun g => (g.startDTS, g.endDTS, g.forced, g.parts.length)) =
+      [(10000000000, 11000000000, false, 2), (11000000000, 12000000000, false, 2), (12000000000, 13000000000, true, 2)] ∧
+    leadStream exSt0 = 0 ∧ WFRun 0 exSt0 exOps ∧
+    ((run exSt0 exOps).stream 1).targetDur = 1 ∧ ((run exSt0 exOps).stream 1).partTargetDur = 500000000 ∧
+    (mediaPlaylist (run exSt0 exOps) 0 false).serverControl = some (1250000000, 6000000000) := by decide
 
 end Hls.Props.C03
